@@ -154,6 +154,22 @@ PROPS.update({
         "level_note": "Native program replay/core_native/src/bin/paths_bounded.rs compiled against /repo's cfdp-core (path dependency, overflow checks on). Bounded stand-in only: "
                       "nothing here is counted as proved. ",
     },
+    "C13": {
+        "title": "Filestore requests act as CFDP defines, once, in order, reported truthfully",
+        "verus": [("recv", ["O-C13-"])],
+        "level": "proof",
+        "technique": "deductive verification (Verus/Z3) of a contract on the request loop of RecvTransaction::finalize_receive and on the functions that forward its responses",
+        "design_ref": "DESIGN.md 4/C13",
+        "level_text": "Partial, proof of function contracts on the RECEIVER: when finalize_receive gets as far as the filestore requests (checksum verified or the fault ignored, file "
+                      "copied without rejection) it produces exactly one response per request, in the order of the metadata; each response is the result of executing its own request "
+                      "as long as no earlier response reported a failure, and the not-performed response for its own request after the first failure (loop invariant over the real "
+                      "loop; `failing_before` is the code's fail_rest flag); on every other path the recorded responses are untouched. The Finished PDU (prepare_finished) and the "
+                      "Finished indication (precondition of send_indication at every call site) carry exactly the recorded responses (the cancel path reports an empty list). "
+                      "NOT decided: what FileStore::process_request does to the file system and which status it returns (live file-system state: no verifier here models it), "
+                      "'once' across calls of finalize_receive (that finalisation itself runs once is C04), that the sender forwards the list to its user unchanged.",
+        "level_note": VERUS_NOTE + "Three calls on the opaque filestore types are declared rewrites to stubs: process_request -> `executed(r, req)`, is_fail -> `failed(r)`, "
+                      "not_performed -> `r == not_performed_of(req)`; `#[derive(Clone)]` of FileStoreResponse is ASSUMED to copy the value.",
+    },
     "C14": {
         "title": "The file checksum is the CCSDS modular checksum, however the data is read",
         "verus": [("checksum", ["O-C14-"])],
@@ -241,8 +257,9 @@ PROPS.update({
                       "(unacknowledged mode => no pending ACK, no prompt, empty NAK queue, no delayed NAK check, NAK timer never started) is a precondition of "
                       "send_pdu and is preserved by process_pdu, handle_timeout, suspend, resume, cancel, abandon, shutdown, handle_fault, store_file_data, "
                       "check_finished and the emitters; send_naks, send_ack_eof and answer_prompt require acknowledged mode, so an unacknowledged-mode receiver's "
-                      "send_pdu can emit a Finished PDU only (finalize_receive is an external stub whose frame is ASSUMED; new() establishing the invariant is "
-                      "by inspection). NOT decided here: that the sender "
+                      "send_pdu can emit a Finished PDU only (new() establishing the invariant is by inspection). finalize_receive (verified body) records the delivery code "
+                      "Complete only when the metadata and every byte of [0, EOF size) were in hand, in either mode, and prepare_finished / send_indication carry exactly "
+                      "the recorded condition, delivery code and file status. NOT decided here: that the sender "
                       "transmits each file-data PDU once (first-pass tiling: C07), the waiting 'up to its limits' (timers: C17), and the two-party sentence as a whole.",
         "level_note": VERUS_NOTE,
     },
@@ -284,5 +301,4 @@ NOT_APPLICABLE = {
     "C03": "bounded-time termination for every peer/link behaviour is liveness plus real time; only the timer loop's own termination is a contract (proved under C17)",
     "C10": "cancel handshakes at both entities under every interleaving and loss pattern: schedules and a peer; the single-entity fragments live in process_pdu (async/iterator-heavy, outside the verifiers' subset)",
     "C11": "isolation of concurrent tokio tasks and routing inside async fn forward_pdu: Kani has no async/thread support, Verus has no model of tokio channels; nothing here is a function contract",
-    "C13": "each request's outcome is a function of live filesystem state (exists, is_file, syscalls) which no verifier here executes or models",
 }
